@@ -48,8 +48,10 @@ def parseUnix3 (hdr : Bytes) : OwnerRes :=
 
 /-- `parseUnix2Header(hdr)` (as the code is: it expects eight bytes of data and reads the last four) -/
 def parseUnix2 (hdr : Bytes) : OwnerRes :=
-  if hdr.length < 8 then .corrupt
-  else orPanic (le16At hdr 4) fun uid => orPanic (le16At hdr 6) fun gid => .ok uid gid
+  -- the block's data section: uid, gid (until `fix:` c3ebb55 the code demanded eight bytes and read offsets 4 and 6,
+  -- as if the id and length fields were still attached: a unix2-only zip could never be read)
+  if hdr.length < 4 then .corrupt
+  else orPanic (le16At hdr 0) fun uid => orPanic (le16At hdr 2) fun gid => .ok uid gid
 
 inductive ExtraRes
   | ok (blocks : List (Nat × Bytes))    -- in order of appearance; a later block with the same id wins (map assignment)
